@@ -539,8 +539,8 @@ def gen_items(ctx):
     rates = [(1.0, 0.0), (0.3, 0.0), (1.0, 0.5), (1.0, 0.9), (2.0, 1.0), (0.1, 0.05)]
     ctx.scope(sc, "{birth_death_tree, fast_birth_death_tree} x (birth,death) in %r x num_extant_tips in %r x namespace in %r "
                   "(every combination for seeds < %d, rotating beyond) x seeds 0..%d; non-trivial = N >= 3"
-              % (rates, Ns, NS_VARIANTS, 200 if quick else 400, nseeds - 1), exhaustive=False)
-    full = 200 if quick else 400
+              % (rates, Ns, NS_VARIANTS, 60 if quick else 400, nseeds - 1), exhaustive=False)
+    full = 60 if quick else 400
     for sim in ("birth_death_tree", "fast_birth_death_tree"):
         for (b, d) in rates:
             for N in Ns:
